@@ -94,7 +94,13 @@ func (w *kWorld) judgeStep(st *kStep, j *kJudge) {
 		j.count("enc")
 		if st.Err != nil {
 			if strings.HasPrefix(st.Err.Error(), "C01:") {
-				j.fail("C01", "payload-modified", "%s: %v", st.Op, st.Err)
+				sig := "payload-modified"
+				if strings.Contains(st.Err.Error(), "shares storage") {
+					sig = "record-aliases-payload-buffer"
+					// C03: the caller's later plaintext writes land inside a record that was already handed out
+					j.fail("C03", sig, "%s: %v", st.Op, st.Err)
+				}
+				j.fail("C01", sig, "%s: %v", st.Op, st.Err)
 				return
 			}
 			j.fail("C04", "enc-error:"+errClass(st.Err), "%s at t=%d failed although metastore and KMS are healthy: %v", st.Op, t, st.Err)
